@@ -3,8 +3,8 @@ INVARIANTS Emit
 CHECK_DEADLOCK FALSE
 CONSTANTS
  HonorsHost = FALSE
- SchemeBound = FALSE
- StripOnRedirect = FALSE
+ SchemeBound = TRUE
+ StripOnRedirect = TRUE
  MaxFaults = 4
  Confs <- AllConfs
  ChalKinds <- AllChal
